@@ -252,7 +252,8 @@ def biased_family(draw):
     shape = draw(st.sampled_from(['widen', 'widen', 'widen', 'incomparable',
                                   'identical', 'chain', 'mixed-nokw',
                                   'mixed-lazy', 'zero-arg-tie',
-                                  'partial-order', 'value-validated']))
+                                  'partial-order', 'value-validated',
+                                  'inferred-from-defaults']))
     layers = draw(st.integers(1, 2))
     defs = []
     argvals = [{'o': a} for a in args]
@@ -291,6 +292,19 @@ def biased_family(draw):
         for _ in range(draw(st.integers(2, 4))):
             mk([draw(st.sampled_from(['Pos', 'Pos', 'int', 'Integer',
                                       'Number', 'obj'])) for _ in range(k)])
+    elif shape == 'inferred-from-defaults':
+        # parameters the host left undeclared: yaql types them from their
+        # default values; the members differ in nothing but those values
+        k = draw(st.integers(1, 2))
+        pool = [('int', 1), ('String', 'x'), ('bool', True), ('obj', None),
+                ('A', {'o': 'a'})]
+        argvals = [draw(st.sampled_from([7, 'y', True, {'o': 'a'}, None]))
+                   for _ in range(k)]
+        for _ in range(draw(st.integers(2, 4))):
+            d = mk(['obj'] * k)
+            for p in d['params']:
+                t, v = draw(st.sampled_from(pool))
+                p.update(type=t, nullable=True, default=v, undeclared=True)
     elif shape == 'partial-order' and k >= 2:
         # >=3 matches containing a comparable pair but no most specific one
         for _ in range(draw(st.integers(3, 4))):
@@ -343,7 +357,8 @@ def biased_family(draw):
     order = draw(st.permutations(range(len(defs))))
     defs = [defs[i] for i in order]
     call = {'args': list(argvals)}
-    if shape not in ('mixed-nokw', 'zero-arg-tie') and k >= 1 and \
+    if shape not in ('mixed-nokw', 'zero-arg-tie',
+                     'inferred-from-defaults') and k >= 1 and \
             draw(st.integers(0, 2)) == 0:
         # pass a suffix of the arguments by keyword
         cut = draw(st.integers(0, k - 1))
@@ -371,6 +386,8 @@ def biased_family(draw):
     fam['decl'] = draw(st.sampled_from(['assembled', 'signature',
                                         'shared-callable', 'shared-payload',
                                         'signature-reregistered']))
+    if shape == 'inferred-from-defaults':
+        fam['decl'] = 'signature'
     return {'kind': 'family', 'shape': shape, 'family': fam, 'call': call,
             'split': draw(st.integers(0, 2))}
 
